@@ -247,6 +247,10 @@ class FoldInterp(object):
             if self.absent:
                 return self._expr(e.values[1], env)
             return self._expr(e.values[0], env)
+        if isinstance(e, ast.IfExp):
+            r = self._absence_test(e.test, env)
+            if r is not None:
+                return self._expr(e.body if r else e.orelse, env)
         raise Undecided('expression `{}` is outside the fold interpreter'.format(node_text(e, 80)), e)
 
 
